@@ -24,6 +24,12 @@ CLAIMS = {
  "C11": ("6.C11", "MC_Manager with Heikin-Ashi: conversion resume index, merge = recover + retag, clean values; deviation config (as-shipped resume index) must violate the invariant; all model states replayed; recorded standalone/Hexital traces from 0/1/2/n candles validated."),
  "C12": ("6.C12", "MC_Manager with fill: contiguity, inserted candles flat at previous close with volume 0, real buckets = resampling; model states replayed; recorded multi-gap streams validated against FillDef(Resample(raw))."),
  "C15": ("6.C15", "MC_Manager with lifespans: window invariant; recorded runs validated against Trim and, where the spec's look-back precondition holds at every append, readings compared bit for bit with the tail of an untrimmed twin."),
+ "C07": ("6.C07", "A sys.monitoring recorder (no repo hook) logs, for every single-candle append after warm-up, which (series, index) readings were computed and the oldest candle read; TLC checks against the specification that only the new (or re-merged) positions were computed, each a bounded number of times, and that no candle older than the warm-up look-back was read; all kinds, timeframes and a multi-member Hexital."),
+ "C08": ("6.C08", "Hexital runs (members as objects, dicts and settings dicts; mixed timeframes; Hexital-level timeframe/fill/lifespan/Heikin-Ashi; construction vs chunks) are validated step by step against the spec (manager creation from raw copies, append fan-out) and every member's column and candles are compared bit for bit by TLC with a standalone twin of the same effective configuration."),
+ "C13": ("6.C13", "Pairs and triples with substring-related names and composites next to their building blocks: TLC checks that purge/recalculate/remove aimed at one member leaves the other columns bit-identical (interference clause) and that each column equals the one obtained alone and under the reversed registration order."),
+ "C14": ("6.C14", "Random programs over append/calculate/purge/recalculate/calculate_index(+/-i)/add/remove are validated step by step: purge leaves exactly the state the spec's MgrPurge of the transitively owned names gives, recalculate and calculate_index reproduce the stored readings bit for bit, and the final calculate() equals a batch twin of the final registry."),
+ "C19": ("6.C19", "Read-only calls (str, repr, name, settings, has_reading, reading, prev_reading, as_list, reading_count, reading_period, candles_sum and the Hexital equivalents) interleaved with appends given as Candle/dict/list: TLC checks that nothing in the projected state or the object's attributes changed, that the caller's containers are unchanged, and that every timeframe received the same candle."),
+ "C20": ("6.C20", "Every accessor path (Indicator.reading/prev_reading/as_list/read_candle/has_reading/reading_count, Hexital.reading/prev_reading/reading_as_list/has_reading; plain and dotted names; positive and negative indices) is compared by TLC with the spec's Reading function on the observed candles, on states holding legitimate 0/False readings."),
  "C18": ("6.C18", "The same scenarios are recorded in subprocesses under 7 non-UTC zones (half-hour, 45-minute, DST) and validated against the single zone-free specification (exact equality of every collapsed candle)."),
 }
 
